@@ -9,6 +9,26 @@ package codon
 // eligible iff 10*w > sum of its synonyms' weights); expected frequencies are
 // w / (sum of eligible weights). Every table is a deep copy, so that the
 // backing arrays shared between GetCodonTable results (C08) play no role here.
+//
+// The proportionality clause (transform/codon.Optimize/post/proportional) takes
+// its draws along three axes, all judged by the same Pearson chi-square against
+// w / (sum of eligible w):
+//   (a) one Optimize call on a long protein of one residue (classes
+//       not-proportional-to-weight, eligible-codon-never-drawn,
+//       ineligible-codon-drawn);
+//   (b) many separate Optimize calls on one short protein, made one after the
+//       other (class many-short-calls);
+//   (c) a history over two packages: the pair "protein :=
+//       random.ProteinSequence(n, seed); Optimize(protein, table)" repeated many
+//       times with the SAME n and seed. The generator seeds the process-wide
+//       math/rand source from its argument, the property still wants every
+//       codon of every repetition to be a fresh draw in proportion to its
+//       weight, so the picks pooled per amino acid over the repetitions (and
+//       over its positions in the protein) must fit the proportions (class
+//       draws-repeat-after-generator-seed). A few fixed seeds, default tables
+//       and re-weighted tables. The cases of (c) take their lengths from a
+//       random stream of their own (c07RepeatStream), so that (a), (b) and all
+//       other cases are the same with and without (c).
 
 import (
 	"fmt"
@@ -96,6 +116,21 @@ func (r *c07Rand) next() uint64 {
 	return z ^ (z >> 31)
 }
 func (r *c07Rand) Intn(n int) int { return int(r.next() % uint64(n)) }
+
+// c07RepeatStream is the random stream of the repeated (generator, optimizer)
+// pairs of the proportionality clause; separate from the stream of all other
+// cases, so that those are the same whether or not the pairs are run.
+func c07RepeatStream(seed int64) *c07Rand {
+	return &c07Rand{uint64(seed)*0xD1B54A32D192ED03 + 0xC07C33}
+}
+
+// Repeated pairs: an amino acid is tested when every eligible codon has at
+// least this expected count, and rejected only below this chi-square tail
+// probability (see the argument at the place of use).
+const (
+	c07RepeatMinExpected = 300
+	c07RepeatP           = 1e-15
+)
 
 // c07CodingSequence writes a random coding sequence for table t in which every
 // amino acid of the table (except those in omit) occurs, with a random codon
@@ -496,8 +531,43 @@ func TestVerifC07(t *testing.T) {
 			shortTables = append(shortTables, reweighted[i])
 		}
 	}
+	// cases for the repeated (generator, optimizer) pairs, part (c); lengths
+	// from their own stream, nothing here touches rng
+	repeats := 1000
+	repeatSeeds := []int64{7, 0, verifSeed() + 2000}
+	var repeatTables []c07Named
+	if thorough {
+		repeats = 4000
+		repeatSeeds = append(repeatSeeds, 1, 42, -1, 1<<40)
+		repeatTables = append(repeatTables, defaults...)
+		repeatTables = append(repeatTables, boundary[:12]...)
+		for i := 0; i < len(reweighted); i += 8 {
+			repeatTables = append(repeatTables, reweighted[i])
+		}
+	} else {
+		for i, d := range defaults {
+			switch c07Ids[i] {
+			case 1, 11:
+				repeatTables = append(repeatTables, d)
+			}
+		}
+		repeatTables = append(repeatTables, boundary[1], reweighted[0])
+	}
+	type c07RepeatCase struct {
+		nt   c07Named
+		n    int
+		seed int64
+	}
+	var repeatCases []c07RepeatCase
+	rngRepeat := c07RepeatStream(verifSeed())
+	for _, nt := range repeatTables {
+		for _, seed := range repeatSeeds {
+			repeatCases = append(repeatCases, c07RepeatCase{nt, 60 + rngRepeat.Intn(141), seed})
+		}
+	}
 	vPR := newVerifRun("C07", "transform/codon.Optimize/post/proportional",
-		fmt.Sprintf("(a) one long call: for each of %d tables (thorough: all 25 defaults, all prescribed-count tables, every second re-weighted table; quick: defaults 1, 2, 3, 12, 22, 23, 27, 12 prescribed-count tables, every third re-weighted table) and each amino acid with >= 2 eligible codons: one protein of %d copies of that residue; the counts of the emitted codons against w/(sum of eligible w) by Pearson chi-square, rejected only below p = 1e-9 (cannot flake: < 1e-5 over the whole run); an eligible codon never drawn or an ineligible one drawn also fails; amino acids with one eligible codon are checked to use only it (trivial); (b) many short calls: for each of %d tables (thorough: the tables of (a); quick: defaults 1 and 2, the prescribed-count tables 2:17 and 1000:8999 of code 1, re-weighted tables 0, 6, 12, 18) one protein of 5..10 residues over the amino acids with >= 2 eligible codons (every position another amino acid, or positions drawn independently) is optimised in %d separate Optimize calls made one after the other without pause (all within a fraction of a second); per amino acid the picks pooled over all calls and positions (%d x occurrences, expected count of every eligible codon > 300) against w/(sum of eligible w) by the same Pearson chi-square, rejected only below p = 1e-9, class many-short-calls", len(propTables), draws, len(shortTables), shortCalls, shortCalls))
+		fmt.Sprintf("(a) one long call: for each of %d tables (thorough: all 25 defaults, all prescribed-count tables, every second re-weighted table; quick: defaults 1, 2, 3, 12, 22, 23, 27, 12 prescribed-count tables, every third re-weighted table) and each amino acid with >= 2 eligible codons: one protein of %d copies of that residue; the counts of the emitted codons against w/(sum of eligible w) by Pearson chi-square, rejected only below p = 1e-9 (cannot flake: < 1e-5 over the whole run); an eligible codon never drawn or an ineligible one drawn also fails; amino acids with one eligible codon are checked to use only it (trivial); (b) many short calls: for each of %d tables (thorough: the tables of (a); quick: defaults 1 and 2, the prescribed-count tables 2:17 and 1000:8999 of code 1, re-weighted tables 0, 6, 12, 18) one protein of 5..10 residues over the amino acids with >= 2 eligible codons (every position another amino acid, or positions drawn independently) is optimised in %d separate Optimize calls made one after the other without pause (all within a fraction of a second); per amino acid the picks pooled over all calls and positions (%d x occurrences, expected count of every eligible codon > 300) against w/(sum of eligible w) by the same Pearson chi-square, rejected only below p = 1e-9, class many-short-calls", len(propTables), draws, len(shortTables), shortCalls, shortCalls)+
+			fmt.Sprintf("; (c) history over the generator and the optimizer: for each of %d tables (thorough: all 25 defaults, the prescribed-count tables of codes 1 and 2, every eighth re-weighted table; quick: defaults 1 and 11, the prescribed-count table 2:17 of code 1, re-weighted table 0) x each of the %d fixed generator seeds %v x one length n in 60..200: the pair protein := random.ProteinSequence(n, seed); Optimize(protein, table) is executed %d times in a row with the same n and seed (the generator seeds the process-wide math/rand source from its argument and returns the same protein every time; tables that cannot encode that protein are left to the rejection clause); per amino acid with >= 2 eligible codons the picks pooled over all repetitions and over its positions in the protein (%d x occurrences; amino acids for which some eligible codon has an expected count < %d are skipped) against w/(sum of eligible w) by the same Pearson chi-square, rejected only below p = %.0e (%d cases x at most 20 amino acids: false alarm < 3e-10 over the whole run), class draws-repeat-after-generator-seed; non-trivial = at least one amino acid tested", len(repeatTables), len(repeatSeeds), repeatSeeds, repeats, repeats, c07RepeatMinExpected, c07RepeatP, len(repeatCases)))
 	vPR.Sampled()
 	for _, nt := range propTables {
 		for _, l := range nt.info.letters {
@@ -666,6 +736,141 @@ func TestVerifC07(t *testing.T) {
 			}
 			if p := c07ChiSqTail(chi, len(el)-1); p < 1e-9 {
 				vPR.Fail("many-short-calls", in, fmt.Sprintf("chi2=%.1f df=%d p=%.3g: %s", chi, len(el)-1, p, desc))
+			}
+		}
+	}
+
+	// ---- proportionality across repeated (generator, optimizer) pairs ---------
+	// The same clause on a history over two packages: the protein comes from
+	// the library's own generator, which seeds the process-wide math/rand source
+	// from its argument, and Optimize is called right after it; that pair is
+	// repeated with the same length and seed. The property says that every
+	// codon is a draw in proportion to its weight, whatever was called before,
+	// so the picks for one amino acid pooled over the repetitions (and over its
+	// positions in the protein, which is the same in every repetition) are one
+	// multinomial sample of size repetitions x occurrences with the proportions
+	// w / (sum of eligible w). Nothing else is demanded (in particular not that
+	// two results differ).
+	//
+	// Why this stays silent on the unchanged tree: Optimize seeds the source from
+	// the clock (nanoseconds) on entry, so what the generator did to the source
+	// before is overwritten, and one repetition takes tens of microseconds, so
+	// consecutive repetitions get different seeds exactly as the consecutive
+	// calls of part (b) do; the pooled picks are then the sample described above
+	// and Pearson's statistic has its chi-square law. The rejection level is
+	// 1e-15 per amino acid instead of the 1e-9 of (a) and (b): with every
+	// expected count >= 300 the true tail of the statistic lies within a factor
+	// of about 30 of the chi-square tail at that level (exact binomial tail for
+	// share 0.1 at 8 sigma), i.e. <= 3e-14 per amino acid, and there are at most
+	// 20 amino acids x (quick 12, thorough 350) cases, so the probability of a
+	// false alarm from this part is < 1e-11 (quick) and < 3e-10 (thorough) per
+	// run; most expected counts are far above 300, where the factor is smaller. The level costs no power: if the draws of the
+	// repetitions coincide, the statistic grows linearly with the number of
+	// repetitions (an amino acid occurring 3 times whose 2 equally weighted
+	// codons come out 2:1 every time gives chi2 = repetitions/3).
+	for _, rc := range repeatCases {
+		nt := rc.nt
+		protein, gerr := polyrandom.ProteinSequence(rc.n, rc.seed)
+		if gerr != nil || len(protein) != rc.n {
+			t.Fatalf("harness: random.ProteinSequence(%d,%d) = %q, %v", rc.n, rc.seed, protein, gerr)
+		}
+		if ok, _ := c07Encodable(nt.info, protein); !ok {
+			continue // rejection clause (checked above for every generator output of n 3..200)
+		}
+		in := fmt.Sprintf("table %s, the pair random.ProteinSequence(%d, %d) = %s; Optimize(that protein) executed %d times in a row", nt.name, rc.n, rc.seed, c07Clip(protein), repeats)
+		// amino acids tested: >= 2 eligible codons and every expected count >= c07RepeatMinExpected
+		var tested []string
+		for _, l := range nt.info.letters {
+			el := nt.info.eligible[l]
+			if len(el) < 2 {
+				continue
+			}
+			totalW, minW := 0, el[0].Weight
+			for _, c := range el {
+				totalW += c.Weight
+				if c.Weight < minW {
+					minW = c.Weight
+				}
+			}
+			if n := strings.Count(protein, l) * repeats; n*minW >= c07RepeatMinExpected*totalW {
+				tested = append(tested, l)
+			}
+		}
+		vPR.Case(in, len(tested) > 0)
+		vTH.Case(in, true)
+		pooled := map[string]map[string]int{} // letter -> triplet -> count
+		for i := 0; i < len(protein); i++ {
+			if pooled[protein[i:i+1]] == nil {
+				pooled[protein[i:i+1]] = map[string]int{}
+			}
+		}
+		distinct := map[string]bool{}
+		failed := false
+		for rep := 0; rep < repeats && !failed; rep++ {
+			p, err := polyrandom.ProteinSequence(rc.n, rc.seed)
+			if err != nil || p != protein {
+				t.Fatalf("harness: random.ProteinSequence(%d,%d) = %q, %v on repetition %d, was %q", rc.n, rc.seed, p, err, rep, protein)
+			}
+			var dna string
+			if !vPR.Guard("panic-on-encodable-protein", in, func() { dna, err = Optimize(p, nt.table) }) {
+				failed = true
+				break
+			}
+			if err != nil {
+				vPR.Fail("error-on-encodable-protein", in, err.Error())
+				failed = true
+				break
+			}
+			if rep%100 == 0 {
+				c07CheckOutput(vRT, vTH, nt, protein, dna)
+			}
+			if len(dna) != 3*len(protein) {
+				vRT.Fail("wrong-length", in, fmt.Sprintf("result has %d bases for %d residues", len(dna), len(protein)))
+				failed = true
+				break
+			}
+			distinct[dna] = true
+			for i := 0; i < len(protein); i++ {
+				pooled[protein[i:i+1]][dna[3*i:3*i+3]]++
+			}
+		}
+		if failed {
+			continue
+		}
+		for _, l := range tested {
+			n := strings.Count(protein, l) * repeats
+			el := nt.info.eligible[l]
+			totalW := 0
+			isEl := map[string]bool{}
+			for _, c := range el {
+				totalW += c.Weight
+				isEl[c.Triplet] = true
+			}
+			bad := false
+			for tr, k := range pooled[l] {
+				if !isEl[tr] {
+					// the threshold (or round-trip) clause, seen on this input
+					if nt.info.decode[tr] == l {
+						vTH.Fail("codon-at-or-below-ten-percent-used", in, fmt.Sprintf("residue %s encoded by %s (weight %d of %d) %d times", l, tr, nt.info.weight[tr], nt.info.sum[l], k))
+					} else {
+						vRT.Fail("decodes-to-other-protein", in, fmt.Sprintf("residue %s encoded by %s %d times", l, tr, k))
+					}
+					bad = true
+				}
+			}
+			if bad {
+				continue
+			}
+			chi := 0.0
+			desc := fmt.Sprintf("residue %s (%d in the protein), %d picks pooled over the repetitions:", l, strings.Count(protein, l), n)
+			for _, c := range el {
+				exp := float64(n) * float64(c.Weight) / float64(totalW)
+				obs := float64(pooled[l][c.Triplet])
+				chi += (obs - exp) * (obs - exp) / exp
+				desc += fmt.Sprintf(" %s w=%d obs=%d exp=%.1f;", c.Triplet, c.Weight, pooled[l][c.Triplet], exp)
+			}
+			if p := c07ChiSqTail(chi, len(el)-1); p < c07RepeatP {
+				vPR.Fail("draws-repeat-after-generator-seed", in, fmt.Sprintf("chi2=%.1f df=%d p=%.3g: %s (for information: the %d repetitions gave %d distinct DNA strings)", chi, len(el)-1, p, desc, repeats, len(distinct)))
 			}
 		}
 	}
